@@ -78,6 +78,23 @@ def generate(tier, rng):
         if not dy and st is not None and st % K:
             st += K - st % K              # whole samples at the non-dyadic rates
         cases.append({"op": "zc", "w": w, "rate": rate, "s": s, "t": t, "st": st, "file": rng.random() < 0.3, "scale": ["ticks", K]})
+    # histories on one Wav object: search, edit the audio in place (also without changing its length), search again
+    for _ in range(200 if tier == "quick" else 5000):
+        w = rng.choice([1, 2, 4])
+        rate = rng.choice(RATES_DY)
+        n = rng.randint(6, 30)
+        s = _signal(rng, w, n)
+        steps = []
+        for _k in range(rng.randint(2, 5)):
+            t = rng.randrange(0, n + 1) * K
+            st = rng.choice([2 * K, 3 * K, 10, 4 * K])
+            steps.append({"k": "zc", "t": t, "st": st})
+            if rng.random() < 0.8:
+                a = rng.randrange(0, n)
+                b = rng.randrange(a, n + 1)
+                m = (b - a) if rng.random() < 0.7 else rng.randint(0, 4)
+                steps.append({"k": "replace", "a": a, "b": b, "f": _signal(rng, w, m) if m else []})
+        cases.append({"op": "zchist", "w": w, "rate": rate, "s": s, "steps": steps, "scale": ["ticks", K]})
     for _ in range(150 if tier == "quick" else 4000):
         cases.append({"op": "tgzc", "seed": rng.randint(0, 10 ** 9), "scale": ["ticks", K], "s": []})
     for _ in range(150 if tier == "quick" else 4000):
@@ -255,6 +272,26 @@ def run(case):
         return core.run_guarded(lambda: _run_tgzc(case))
     if op == "splice":
         return core.run_guarded(lambda: _run_splice(case))
+    if op == "zchist":
+        def hh():
+            wav = _wav(case["s"], case["w"], case["rate"])
+            w_, rate_ = case["w"], case["rate"]
+            recs = []
+            for st in case["steps"]:
+                if st["k"] == "replace":
+                    wav.replaceSegment(st["a"] / rate_, st["b"] / rate_, c16._enc(st["f"], w_))
+                    continue
+                cur = [int.from_bytes(wav.frames[i:i + w_], "little", signed=True) for i in range(0, len(wav.frames), w_)]
+                try:
+                    x = _with_alarm(lambda: wav.findNearestZeroCrossing(st["t"] / (K * rate_), st["st"] / (K * rate_)))
+                    tk = _tick(x, rate_)
+                    recs.append({"s": cur, "t": st["t"], "st": st["st"], "out": ("ok", tk) if tk is not None else ("offgrid", x)})
+                except Timeout:
+                    recs.append({"s": cur, "t": st["t"], "st": st["st"], "out": ("timeout", None)})
+                except Exception as e:  # noqa
+                    recs.append({"s": cur, "t": st["t"], "st": st["st"], "out": ("err", core.err_kind(e))})
+            return recs
+        return core.run_guarded(hh)
     w, rate, s = case["w"], case["rate"], case["s"]
     t = case["t"] / (K * rate)
     d = None
@@ -297,6 +334,20 @@ def _st_ticks(case):
     return None
 
 
+def emit_multi(case, r):
+    if case["op"] == "zchist":
+        terms = []
+        for rec in r.get("ok", []):
+            kind, v = rec["out"]
+            if kind not in ("ok", "err"):
+                continue
+            out = "(Ok %s)" % core.cz(v) if kind == "ok" else "(Err %s)" % v
+            terms.append("ZC %d %s %s %s true %s" % (K, c16.czl(rec["s"]), core.cz(rec["t"]), core.cz(rec["st"]), out))
+        return terms
+    t = emit(case, r)
+    return [t] if t else []
+
+
 def emit(case, r):
     if case["op"] != "zc" or "timeout" in r:
         return None
@@ -316,6 +367,11 @@ def model_expr(case):
 
 
 def py_checks(case, r):
+    if case["op"] == "zchist":
+        if "ok" not in r:
+            return ["zero-crossing history failed: %s" % r.get("exc", r)]
+        return ["findNearestZeroCrossing %s" % ("did not terminate" if rec["out"][0] == "timeout" else "returned %r, off the sample grid" % rec["out"][1])
+                for rec in r["ok"] if rec["out"][0] in ("timeout", "offgrid")]
     if case["op"] in ("tgzc", "splice"):
         if "ok" not in r:
             return ["%s harness failed: %s" % (case["op"], r.get("exc", r))]
@@ -335,7 +391,7 @@ def classify(case, r):
 
 def nontrivial(case, r):
     s = case["s"]
-    return case["op"] != "zc" or any(s[i] == 0 or (s[i] > 0) != (s[i + 1] > 0) for i in range(len(s) - 1))
+    return case["op"] not in ("zc",) or any(s[i] == 0 or (s[i] > 0) != (s[i + 1] > 0) for i in range(len(s) - 1))
 
 
 def shrinks(case):
